@@ -219,6 +219,17 @@ var decoyOptions = []struct {
 			c.PlanModifiers[k] = []string{"PathModifier()"}
 		}
 	}},
+	{"injected-same-name", func(c *spec.Config, keys []string) {
+		// an injected attribute called like the unmappable field, in the message that holds it
+		if c.InjectedFields == nil {
+			c.InjectedFields = map[string][]spec.Injected{}
+		}
+		for _, k := range keys {
+			i := strings.LastIndex(k, ".")
+			c.InjectedFields[k[:i]] = append(c.InjectedFields[k[:i]],
+				spec.Injected{Name: spec.SnakeCase(k[i+1:]), Type: "github.com/hashicorp/terraform-plugin-framework/types.StringType", Optional: true})
+		}
+	}},
 	{"suffix+injected", func(c *spec.Config, keys []string) {
 		if c.Suffixes == nil {
 			c.Suffixes = map[string]string{}
